@@ -193,13 +193,14 @@ def gen_case(rng, uid, force=None):
         for i in ids:
             sp_pool = pool if j == 0 else sorted(used[i])
             row = []
+            quiet = i in quiet_sets and quiet_from <= j < quiet_to
             for fld in sets[i - 1]['fields']:
                 v = gen_field_value(rng, fld, sp_pool)
+                if quiet:
+                    v = None           # (before the species of the first record are noted: an unset field has none)
                 if j == 0 and isinstance(v, dict) and fld['shape'] in ('TS', 'TSP', 'TSM'):
                     used[i] |= {int(s) for s in v}
                 row.append(v)
-            if i in quiet_sets and quiet_from <= j < quiet_to:
-                row = [None] * len(row)
             vals[str(i)] = row
         trajs.append({'n': n, 'base': base, 'vals': vals})
     if out_of_dim:
